@@ -30,7 +30,7 @@
 (*              every return value is what the model returns.  Rejection   *)
 (*              in strict mode only = spec drift (fidelity), not a verdict.*)
 (***************************************************************************)
-EXTENDS Naturals, Integers, Sequences, FiniteSets, TLC, Json, IOUtils
+EXTENDS Naturals, Integers, Sequences, FiniteSets, TLC, Json, IOUtils, SequencesExt
 
 EnvC == ndJsonDeserialize(IOEnv.C15_CONSTS)[1]
 SetOf(q) == {q[i] : i \in DOMAIN q}
@@ -157,11 +157,12 @@ TNext == StepEv \/ ResetEv \/ LinStep \/ ConcDone
 TSpec == TInit /\ [][TNext]_tvars
 
 \* ---- acceptance: every line consumed (a conc line takes one level per call in strict mode) ----
-\* (keep files with conc lines below a few thousand lines: Cum is a plain recursion)
+\* FoldLeft is evaluated by its Java override (iterative): the POSTCONDITION runs on TLC's main
+\* thread, whose stack a plain recursion over a few thousand lines overflows.
 Weight(r) == IF r.ev = "conc" /\ Strict THEN Len(r.ops) + 1 ELSE 1
 UnitWeights == ~Strict \/ \A i \in 1..Len(Rec) : Rec[i].ev # "conc"
-RECURSIVE Cum(_)
-Cum(i) == IF UnitWeights THEN i ELSE IF i = 0 THEN 0 ELSE Cum(i - 1) + Weight(Rec[i])
+Cum(i) == IF UnitWeights THEN i
+          ELSE FoldLeft(LAMBDA acc, r : acc + Weight(r), 0, SubSeq(Rec, 1, i))
 Accepted == LET d == TLCGet("stats").diameter - 1 IN
             IF d = Cum(Len(Rec)) THEN EmitTag("ACCEPT", [n |-> Len(Rec), levels |-> d])
             ELSE LET bad == IF UnitWeights THEN d + 1
